@@ -1,0 +1,28 @@
+// SPDX-FileCopyrightText: (C) 2024 Intel Corporation
+// SPDX-License-Identifier: Apache 2.0
+
+//go:build verif
+
+package kex
+
+import (
+	"crypto"
+
+	"github.com/fido-device-onboard/go-fdo/internal/nistkdf"
+)
+
+// VerifKDF exposes the internal key derivation function to the verification
+// harness.
+func VerifKDF(hash crypto.Hash, shSe, contextRand []byte, bits uint16) []byte {
+	return nistkdf.KDF(hash, shSe, contextRand, bits)
+}
+
+// VerifECDHParam encodes and decodes an ECDH key exchange parameter.
+func VerifECDHParam(b []byte) (pub, rand, reencoded []byte, err error) {
+	var p ecdhParam
+	if err := p.UnmarshalBinary(b); err != nil {
+		return nil, nil, nil, err
+	}
+	re, err := p.MarshalBinary()
+	return p.Pub, p.Rand, re, err
+}
